@@ -23,12 +23,19 @@ type C07Case struct {
 	Text  string      `json:"text"`
 	// Plain[i] is the text record i was coloured from (decolorize cases).
 	Plain []string `json:"plain,omitempty"`
+	// Prefix, when set, is a parser stage in front of Stage: the rewriting stage then works on
+	// extracted labels (JSON numbers and booleans among them).
+	Prefix *gen.Stage `json:"prefix,omitempty"`
 }
 
 func c07Check(c C07Case) (r evid.Result) {
 	recs := c.Recs // already in time order, index-aligned with Plain
 	q := gen.LogQuery{Stages: []gen.Stage{c.Stage}}
+	if c.Prefix != nil {
+		q.Stages = []gen.Stage{*c.Prefix, c.Stage}
+	}
 	r.Class(true, "stage="+c.Stage.Kind)
+	r.Class(c.Prefix != nil, "after-json-parser")
 	store := mockstore.New(recs, mockstore.Caps{})
 	data, err := eng.Eval(store, c.Text, eng.CoverAll(recs))
 	if err != nil {
@@ -81,6 +88,11 @@ func c07Check(c C07Case) (r evid.Result) {
 			return r
 		}
 		base := rec.BaseLabels()
+		if c.Prefix != nil {
+			if _, pl, _, perr := model.NewPipeline([]gen.Stage{*c.Prefix}).Process(rec, rec.TS, string(rec.Line), rec.BaseLabels()); perr == nil {
+				base = pl
+			}
+		}
 		switch c.Stage.Kind {
 		case "label_format":
 			for _, rn := range c.Stage.Renames {
@@ -123,6 +135,21 @@ func c07Gen(t *rapid.T) C07Case {
 	names := []string{}
 	for _, l := range s.Labels {
 		names = append(names, l.Name)
+	}
+	if kind != "decolorize" && rapid.IntRange(0, 3).Draw(t, "after-json") == 0 {
+		// JSON documents behind "| json": the stage works on extracted labels, some of which
+		// come from JSON numbers and booleans.
+		s = datagen.GenSchema(t, []string{"json"})
+		c.Recs = datagen.GenRecs(t, s, 6, true)
+		model.SortRecs(c.Recs)
+		c.Prefix = &gen.Stage{Kind: "json"}
+		names = names[:0]
+		for _, f := range append(append([]datagen.Field{}, s.Labels...), s.Fields...) {
+			if f.Type != "obj" {
+				names = append(names, f.Name)
+			}
+		}
+		n = 0
 	}
 	for i := 0; i < n; i++ {
 		ts += 1e6
@@ -193,7 +220,13 @@ func c07Gen(t *rapid.T) C07Case {
 			if rapid.IntRange(0, 2).Draw(t, "matcher") == 0 {
 				var pool []string
 				for _, r := range c.Recs {
-					if v, ok := r.BaseLabels()[nme]; ok {
+					labels := r.BaseLabels()
+					if c.Prefix != nil {
+						if _, pl, _, perr := model.NewPipeline([]gen.Stage{*c.Prefix}).Process(r, r.TS, string(r.Line), r.BaseLabels()); perr == nil {
+							labels = pl
+						}
+					}
+					if v, ok := labels[nme]; ok {
 						pool = append(pool, v)
 					}
 				}
@@ -209,7 +242,11 @@ func c07Gen(t *rapid.T) C07Case {
 		}
 	}
 	c.Stage = st
-	c.Text = gen.PrintLog(&gen.LogQuery{Stages: []gen.Stage{st}}, gen.Plain{})
+	stages := []gen.Stage{st}
+	if c.Prefix != nil {
+		stages = []gen.Stage{*c.Prefix, st}
+	}
+	c.Text = gen.PrintLog(&gen.LogQuery{Stages: stages}, gen.Plain{})
 	return c
 }
 
